@@ -82,7 +82,7 @@ func (c *Ctx) teardown(ru *report.Rule) *teardown {
 		return nil
 	}
 	sess := ssa.Value(td.fn.Params[td.sessIdx])
-	isSess := func(p *core.Path, v ssa.Value) bool { return core.Strip(p.Resolve(core.Strip(v))) == sess }
+	isSess := func(p *core.Path, v ssa.Value) bool { return same(p.Resolve(core.Strip(v)), sess) }
 	for _, p := range paths {
 		if _, ok := p.Exit.(*ssa.Return); !ok {
 			continue
@@ -152,7 +152,7 @@ func (c *Ctx) teardown(ru *report.Rule) *teardown {
 // ownID: v is session.ID() of the teardown's session parameter (p resolves parameters of inlined helpers).
 func (td *teardown) ownID(p *core.Path, v ssa.Value) bool {
 	cv, ok := core.Strip(p.Resolve(core.Strip(v))).(*ssa.Call)
-	return ok && core.CallOf(cv).Is(td.sessID) && core.Strip(p.Resolve(core.Strip(cv.Call.Args[0]))) == ssa.Value(td.fn.Params[td.sessIdx])
+	return ok && core.CallOf(cv).Is(td.sessID) && same(p.Resolve(core.Strip(cv.Call.Args[0])), td.fn.Params[td.sessIdx])
 }
 
 func (tp *tdPath) atoms() string {
